@@ -290,7 +290,10 @@ func C11(c *Ctx) {
 			ok = false
 			for _, s := range strips {
 				if c.O.Of(s.Args()[1]).Is("global", "parser.reGoBuildGen") && c.O.Of(s.Args()[0]).String() == c.O.Of(prints[0].Args()[2]).String() &&
-					s.Instr.Block().Dominates(prints[0].Instr.Block()) && len(c.ReachOf(s.Instr)) == 1 && len(c.ReachOf(s.Instr)[0]) == 0 {
+					s.Instr.Block().Dominates(prints[0].Instr.Block()) &&
+					// must-pass-through: no way to the print avoids the strip (it may stand behind the loop that plants the markers: the
+					// filter moves comment lines, and the markers are placed by looking nodes up by position)
+					(s.Instr.Block() == prints[0].Instr.Block() || len(c.ReachAvoid(fn, map[*ssa.BasicBlock]bool{s.Instr.Block(): true}).At(prints[0].Instr.Block())) == 0) {
 					ok = true
 				}
 			}
@@ -305,6 +308,7 @@ func C11(c *Ctx) {
 	c.lineSubjectRule("C11-11")
 	c.emptiedDocRule("C11-12")
 	c.keptLinesMoveRule("C11-13")
+	c.filterAfterLookupsRule("C11-14")
 
 	r.Rule("C11-6", "util.ExtractMatchComments visits every comment of the group (the loop has no exit other than exhaustion), appends every matching comment to the removed list and every non-matching one after the first match to the kept list")
 	if fn := c.MustFunc("C11-6", "/pkg/util", "ExtractMatchComments"); fn != nil {
